@@ -199,6 +199,7 @@ def explore(tier, seed):
     for p in CHAIN_PATTERNS:
         chunks.append(("chain", p, 40 if tier == "quick" else 400))
     chunks.append(("anchors", CHAIN_PATTERNS))
+    chunks.append(("optional-week", None))
     return pool.run_chunks(run_chunk, chunks)
 
 
@@ -243,9 +244,37 @@ def run_chunk(chunk):
         st.sample({"structure_sweep_patterns": chunk[1][:3], "states_of_last": n})
     elif chunk[0] == "anchors":
         anchored(st, chunk[1])
+    elif chunk[0] == "optional-week":
+        optional_week(st)
     else:
         chain(st, chunk[1], chunk[2])
     return st
+
+
+OPTIONAL_WEEK_PATTERNS = ["YYYY[.WW]", "YYYY[.UU]", "YYYY[.0W]", "YYYY[w0U]", "YY[.WW]", "vYYYY[wWW].BUILD[-TAG]", "YYYY[.WW[.PATCH]]", "GGGG[.VV]", "YYYY[.MM[.DD]]"]
+
+
+def optional_week(st):
+    """A calendar part inside an optional group: week 0 (the days of January before the first Monday/Sunday) is a value, not an absent
+    part - the first ten and the last four days of every year 2001-2099."""
+    for text in OPTIONAL_WEEK_PATTERNS:
+        pat = grammar.Pat(M.parse_pattern(text))
+        fields = list(dict.fromkeys(pat.fields))
+        for year in range(2001, 2100):
+            for d in [dt.date(year, 1, 1) + dt.timedelta(days=k) for k in range(10)] + [dt.date(year, 12, 28) + dt.timedelta(days=k) for k in range(4)]:
+                cal = M.cal_from_date(d)
+                state = {f: cal[f] for f in fields if f in cal}
+                if "bid" in fields:
+                    state["bid"] = "1001"
+                if "tag" in fields:
+                    state["tag"] = "final"
+                if "patch" in fields:
+                    state["patch"] = 0
+                if M.recognise(pat.tree, M.render(pat.tree, state)) != state:
+                    st.counters["states_not_representable_in_pattern (e.g. week 53)"] += 1
+                    continue
+                round_trip(st, pat, state, d, {"pattern": text, "date": d.isoformat()})
+        st.outcomes["optional-calendar-group-swept"] += 1
 
 
 # (pattern prefix, pattern suffix, literal text they stand for): only the very first ^ and the very last $ are anchors
